@@ -2,7 +2,7 @@
    load columns = the C04 load model; mirror symmetry for an odd law; a multi-point run gives every point the rows of
    its single-point run; derived recorder columns; and what is NOT true of the running strain extremes. *)
 From Coq Require Import ZArith QArith List Bool Lia.
-From PL Require Import Rainflow.Model HCM.Model HCM.Load HCM.Sim HCM.RecThm HCM.Full.
+From PL Require Import Rainflow.Model HCM.Model HCM.Load HCM.Sim HCM.RecThm HCM.Select HCM.Full HCM.Chunks.
 Import ListNotations.
 Open Scope Z_scope.
 
@@ -153,7 +153,136 @@ Proof.
   - intros a. unfold vneg. rewrite at_vec by exact Hj. reflexivity.
   - intros a. unfold vabs. rewrite at_vec by exact Hj. reflexivity.
 Qed.
+
+(* ----- recorder variants (HCM.Select / Full.mrecords_v): which comparisons are still taken from point 0 ----- *)
+Let ag (a b : list Z) : Prop := agree (list Z) Z vltb Z.ltb (at_ j) a b.
+(* point j orders like point 0 every pair that the variant (pwc, pwl) still compares at point 0 only *)
+Fixpoint cmp_agree_v (pwc pwl : bool) (emin emax : list Z) (evs : list (event (list Z))) : Prop :=
+  match evs with
+  | [] => True
+  | Half _ _ :: r => cmp_agree_v pwc pwl emin emax r
+  | Closed p0 p1 _ :: r =>
+      (pwc = false -> ag (pS p0) (pS p1) /\ ag (pS p1) (pS p0) /\ ag (pE p0) (pE p1) /\ ag (pE p1) (pE p0)) /\
+      cmp_agree_v pwc pwl emin emax r
+  | Visit cur prev _ :: r =>
+      (pwl = false -> if prev <? pL cur then ag (pE cur) emax else ag emin (pE cur)) /\
+      cmp_agree_v pwc pwl
+        (fst (lf_update_g (list Z) (msel_min cs pwl) (msel_max cs pwl) emin emax cur (prev <? pL cur)))
+        (snd (lf_update_g (list Z) (msel_min cs pwl) (msel_max cs pwl) emin emax cur (prev <? pL cur))) r
+  end.
+
+Lemma zsel_min a b : sel_min Z Z.ltb a b = Z.min a b.
+Proof. unfold sel_min. destruct (Z.ltb_spec a b); [rewrite Z.min_l|rewrite Z.min_r]; lia. Qed.
+Lemma zsel_max a b : sel_max Z Z.ltb a b = Z.max a b.
+Proof. unfold sel_max. destruct (Z.ltb_spec b a); [rewrite Z.max_l|rewrite Z.max_r]; lia. Qed.
+
+Lemma msel_min_commutes pw a b : (pw = false -> ag a b) ->
+  commutes (list Z) Z (at_ j) (msel_min cs pw) (sel_min Z Z.ltb) a b.
+Proof.
+  unfold commutes. destruct pw; cbn [msel_min]; intros H.
+  - unfold pwmin. rewrite at_vec by exact Hj. rewrite zsel_min. reflexivity.
+  - specialize (H eq_refl). unfold ag, agree in H. unfold sel_min. rewrite <- H. destruct (vltb a b); reflexivity.
+Qed.
+Lemma msel_max_commutes pw a b : (pw = false -> ag b a) ->
+  commutes (list Z) Z (at_ j) (msel_max cs pw) (sel_max Z Z.ltb) a b.
+Proof.
+  unfold commutes. destruct pw; cbn [msel_max]; intros H.
+  - unfold pwmax. rewrite at_vec by exact Hj. rewrite zsel_max. reflexivity.
+  - specialize (H eq_refl). unfold ag, agree in H. unfold sel_max. rewrite <- H. destruct (vltb b a); reflexivity.
+Qed.
+
+Lemma cmp_agree_v_sel_ok pwc pwl : forall evs emin emax, cmp_agree_v pwc pwl emin emax evs ->
+  sel_ok (list Z) Z (msel_min cs pwc) (msel_max cs pwc) (msel_min cs pwl) (msel_max cs pwl)
+         (sel_min Z Z.ltb) (sel_max Z Z.ltb) (sel_min Z Z.ltb) (sel_max Z Z.ltb) (at_ j) emin emax evs.
+Proof.
+  induction evs as [|e evs IH]; intros emin emax H; [exact I|].
+  destruct e as [prev run|p0 p1 run|cur prev run]; cbn [sel_ok cmp_agree_v] in *.
+  - apply IH; exact H.
+  - destruct H as (Hc & H). repeat split; try (apply IH; exact H).
+    + apply msel_min_commutes. intros E. apply Hc; exact E.
+    + apply msel_max_commutes. intros E. apply Hc; exact E.
+    + apply msel_min_commutes. intros E. apply Hc; exact E.
+    + apply msel_max_commutes. intros E. apply Hc; exact E.
+  - destruct H as (Hl & H). split; [|apply IH; exact H].
+    destruct (prev <? pL cur).
+    + apply msel_max_commutes. exact Hl.
+    + apply msel_min_commutes. exact Hl.
+Qed.
+
+(* the rows of point j, for ANY event list (whole-sequence runs and chunked runs alike) *)
+Lemma mrecords_v_proj pwc pwl evs : cmp_agree_v pwc pwl (mzero cs) (mzero cs) evs ->
+  map (proj_rec 1 cs j) (mrecords_v cs pwc pwl evs) = zrecords (map (mev (list Z) Z (at_ j) phi) evs).
+Proof.
+  intros Hag. unfold zrecords, mrecords_v. rewrite <- records_g_first_node.
+  assert (Hz : at_ j (mzero cs) = 0) by (unfold mzero; rewrite at_vec by exact Hj; reflexivity).
+  rewrite <- Hz.
+  rewrite (records_g_hom (list Z) Z (vneg cs) (vabs cs) (msel_min cs pwc) (msel_max cs pwc) (msel_min cs pwl) (msel_max cs pwl)
+             Z.opp Z.abs (sel_min Z Z.ltb) (sel_max Z Z.ltb) (sel_min Z Z.ltb) (sel_max Z Z.ltb) (at_ j) phi (at_ j cs)); auto.
+  - apply map_ext. intros r. unfold proj_rec, mrec. rewrite !nodeL1. reflexivity.
+  - intros a. unfold vneg. rewrite at_vec by exact Hj. reflexivity.
+  - intros a. unfold vabs. rewrite at_vec by exact Hj. reflexivity.
+  - apply cmp_agree_v_sel_ok. exact Hag.
+Qed.
+Lemma cmp_agree_v_tt : forall evs emin emax, cmp_agree_v true true emin emax evs.
+Proof.
+  induction evs as [|e evs IH]; intros emin emax; [exact I|].
+  destruct e as [prev run|p0 p1 run|cur prev run]; cbn [cmp_agree_v]; auto.
+  - split; [discriminate|apply IH].
+  - split; [discriminate|apply IH].
+Qed.
+
+(* every variant: point j gets the rows of its single-point run if it orders like point 0 what is still compared at point 0 *)
+Theorem multipoint_is_pointwise_v pwc pwl s :
+  cmp_agree_v pwc pwl (mzero cs) (mzero cs) (mtrace 1 cs s) ->
+  map (proj_rec 1 cs j) (mrecords_v cs pwc pwl (mtrace 1 cs s)) = zrecords (ztrace (map phi s)).
+Proof. intros H. rewrite multipoint_trace. apply mrecords_v_proj. exact H. Qed.
+(* the repaired recorder (both selections per point): no hypothesis left -- the property's second sentence at full strength *)
+Theorem multipoint_is_pointwise_repaired s :
+  map (proj_rec 1 cs j) (mrecords_v cs true true (mtrace 1 cs s)) = zrecords (ztrace (map phi s)).
+Proof. apply multipoint_is_pointwise_v. apply cmp_agree_v_tt. Qed.
+
+(* the same when the history is fed in chunks: process(chunk_1, flush_1) ... process(chunk_k, flush_k) *)
+Theorem chunked_multipoint_trace cs' :
+  zctrace (map_chunks phi cs') = map (mev (list Z) Z (at_ j) phi) (mctrace 1 cs cs').
+Proof.
+  unfold zctrace, mctrace.
+  apply (ctrace_sim (list Z) Z (vadd cs) Z.add (msig 1 cs) (meps 1 cs) (mdsig 1 cs) (mdeps 1 cs) isig ieps idsig ideps (at_ j) phi (at_ j cs));
+    intros; try lia; try reflexivity.
+  - unfold vadd. rewrite at_vec by exact Hj. reflexivity.
+  - unfold msig. rewrite at_vec by exact Hj. rewrite nodeL1. reflexivity.
+  - unfold meps. rewrite at_vec by exact Hj. rewrite nodeL1. reflexivity.
+  - unfold mdsig. rewrite at_vec by exact Hj. rewrite nodeL1. reflexivity.
+  - unfold mdeps. rewrite at_vec by exact Hj. rewrite nodeL1. reflexivity.
+Qed.
+Theorem chunked_multipoint_is_pointwise_v pwc pwl cs' :
+  cmp_agree_v pwc pwl (mzero cs) (mzero cs) (mctrace 1 cs cs') ->
+  map (proj_rec 1 cs j) (mrecords_v cs pwc pwl (mctrace 1 cs cs')) = zrecords (zctrace (map_chunks phi cs')).
+Proof. intros H. rewrite chunked_multipoint_trace. apply mrecords_v_proj. exact H. Qed.
+Theorem chunked_multipoint_is_pointwise_repaired cs' :
+  map (proj_rec 1 cs j) (mrecords_v cs true true (mctrace 1 cs cs')) = zrecords (zctrace (map_chunks phi cs')).
+Proof. apply chunked_multipoint_is_pointwise_v. apply cmp_agree_v_tt. Qed.
 End MultiThm.
+
+(* the variant false/false is the model of the code as it is *)
+Lemma mrecords_v_ff cs evs : mrecords_v cs false false evs = mrecords cs evs.
+Proof. unfold mrecords_v, mrecords. cbn [msel_min msel_max]. apply records_g_first_node. Qed.
+
+(* the code as it is (all selections from point 0) does NOT give every point the rows of its single-point run: the order
+   hypothesis of [multipoint_is_pointwise] is needed (injected law, ratios 1 : 3: point 0 has a positive strain at load -1,
+   point 1 a negative one; the running maximum of point 1 follows point 0's decision) *)
+Theorem multipoint_first_node_refuted : exists cs j s, (j < length cs)%nat /\ 0 < at_ j cs /\
+  map (proj_rec 1 cs j) (mrecords cs (mtrace 1 cs s)) <> zrecords (ztrace (map (fun x => at_ j cs * x) s)).
+Proof. exists [1; 3], 1%nat, [-1; -3; -3]. split; [cbn; lia|]. split; [reflexivity|]. vm_compute. discriminate. Qed.
+
+(* the hypothesis of the variants theorem is satisfiable in every variant (and non-trivially so: rows are produced) *)
+Example variants_hyp_sat : forall pwc pwl,
+  cmp_agree_v [1; 3] 1 pwc pwl (mzero [1; 3]) (mzero [1; 3]) (mtrace 1 [1; 3] [1; -3; 2; -1]) /\
+  mrecords_v [1; 3] pwc pwl (mtrace 1 [1; 3] [1; -3; 2; -1]) <> [].
+Proof. intros [|] [|]; (split; [vm_compute; repeat split; intros; try discriminate; reflexivity|vm_compute; discriminate]). Qed.
+Example chunked_hyp_sat :
+  cmp_agree_v [1; 3] 1 false false (mzero [1; 3]) (mzero [1; 3]) (mctrace 1 [1; 3] [([0; 1; -3; 2], false); ([-1; 3; -4; 1], true)]) /\
+  mrecords_v [1; 3] false false (mctrace 1 [1; 3] [([0; 1; -3; 2], false); ([-1; 3; -4; 1], true)]) <> [].
+Proof. split; [vm_compute; repeat split; intros; reflexivity|vm_compute; discriminate]. Qed.
 
 Example multipoint_hyp_sat :
   cmp_agree (list Z) Z vltb Z.ltb (at_ 1) (mzero [1; 3]) (mzero [1; 3]) (mtrace 1 [1; 3] [1; -3; 2; -1]) /\
